@@ -167,6 +167,8 @@ async fn settle() {
 }
 
 enum Ev {
+    /// the handle() future is dropped and handle() is called again (first connection)
+    HR,
     R(u32),
     RX(u32),
     PL(u32, usize),
@@ -248,6 +250,7 @@ pub fn run(st: &State, t: &mut Toks) -> PResult<String> {
         evs.push(match t.next()? {
             "R" => Ev::R(t.u32()?),
             "RX" => Ev::RX(t.u32()?),
+            "HR" => Ev::HR,
             "PL" => {
                 let h = t.u32()?;
                 Ev::PL(h, t.u64()? as usize)
@@ -304,6 +307,7 @@ pub fn run(st: &State, t: &mut Toks) -> PResult<String> {
                 l.local_addr().expect("addr").port()
             };
             let mut client = DiameterClient::new(&format!("127.0.0.1:{}", dead_port), DiameterClientConfig { use_tls: false, verify_cert: false });
+            let restart = Arc::new(tokio::sync::Notify::new());
             let mut conns: Vec<(Duplex, Arc<AtomicBool>)> = Vec::new();
             {
                 let duplex = Duplex(Arc::new(Mutex::new(DState::default())));
@@ -311,8 +315,17 @@ pub fn run(st: &State, t: &mut Toks) -> PResult<String> {
                 let reader_done = Arc::new(AtomicBool::new(false));
                 let rd = Arc::clone(&reader_done);
                 let dict_r = Arc::clone(&dict);
+                let restart0 = Arc::clone(&restart);
                 tokio::spawn(async move {
-                    DiameterClient::handle(&mut handler, dict_r).await;
+                    // `HR`: the caller drops the handle() future (a select! / timeout arm around it) while the connection is idle and
+                    // calls handle() again on the same ClientHandler
+                    loop {
+                        tokio::select! {
+                            biased;
+                            _ = restart0.notified() => continue,
+                            _ = DiameterClient::handle(&mut handler, Arc::clone(&dict_r)) => break,
+                        }
+                    }
                     rd.store(true, Ordering::SeqCst);
                     // the caller keeps its ClientHandler after handle() has returned (as one that drives handle() from its
                     // own task does): what handle() owes the waiters must not depend on the handler being dropped
@@ -528,6 +541,7 @@ pub fn run(st: &State, t: &mut Toks) -> PResult<String> {
                             }
                         }
                     }
+                    Ev::HR => restart.notify_one(),
                     Ev::Sel(c) => {
                         if c < conns.len() {
                             sel = c;
